@@ -2,6 +2,7 @@ import TruthModel.Props.C16Instr
 import TruthModel.Props.C16Files
 import TruthModel.Props.C16Anm
 import TruthModel.Props.C16AnmAmpl
+import TruthModel.Props.C16Ecl10
 /-
 C16 — any binary input ends in success or a diagnostic, never a crash.
 
@@ -14,4 +15,8 @@ C16 — any binary input ends in success or a diagnostic, never a crash.
 * `Props/C16Anm.lean`: the ANM container (`anm_read_panic_only_counter`, `anm_read_no_panic_partial`, `anm_read_total`,
   `anm_entry_chain_terminates`, `anm_entry_loop_check_dead`, `anm_read_alloc_bound_partial`, the amplification witnesses);
   `Props/C16AnmAmpl.lean`: `anm_shared_texture_reads`, `anm_read_alloc_bound_full_false`.
+* `Props/C16Ecl10.lean`: stack ECL (TH10 and later) - `readInstr10_no_panic`, `readInstr10_consumes`,
+  `readInstrs10_fuel_suffices`, `readInstrs10_total`, `readInstrs10_exact`; the container: `ecl10_read_no_panic`
+  (every byte string, every codec; `ecl10_asserts_dead`), `ecl10_read_total`, `ecl10_read_alloc_bound` (linear, no
+  table factor: `readSubsAux_tiles`).
 -/
